@@ -50,6 +50,23 @@ CHECKS = {
         'else exactly the declared amount; and no counted HTLC is answered before pay returns. All schedules of <=2 (quick) / <=3 (thorough) HTLCs.',
    design='4/C03', technique='symbolic execution of the real async stack from MIR under an explicit-state scheduler with partial-order reduction; SMT decides data; native replay over a fake node',
    note=TRUST + '; node + tokio contracts; products abstracted by an uninterpreted function during search and re-validated exactly on any counterexample; single HTLC amount <= money supply.'),
+ 'C01': dict(category='model_checking',
+   text='Full stack from MIR with the HTLC payment hash symbolic and independent of the invoice hash. At every Resolve handed to an HTLC the solver decides payment_key = pre(htlc hash); '
+        'at every pay call every registered HTLC has the invoice hash; every Succeeded record written holds pre(key hash). Stored histories: absent / Pending with a live or dead part / Succeeded. '
+        'All schedules of <=2 HTLCs (quick), plus one crash (thorough).',
+   design='4/C01', technique='symbolic execution of the real async stack from MIR under an explicit-state scheduler with partial-order reduction; SMT decides data; native replay over a fake node',
+   note=TRUST + '; SHA-256 not executed: preimages are terms pre(h); invoice parsing is an oracle keyed by the invoice bytes.'),
+ 'C04': dict(category='model_checking',
+   text='Full stack from MIR with symbolic expiries, heights (advancing while the set is collected), safety delta and policy delta: at every pay call maxdelay <= max(0, min expiry of the HTLCs '
+        'registered when the lifecycle read the table - height at that time - cltv_delta) and <= policy delta; an HTLC with relative expiry below the policy delta on a still-incomplete set never leads to pay.',
+   design='4/C04', technique='symbolic execution of the real async stack from MIR under an explicit-state scheduler with partial-order reduction; SMT decides data; native replay over a fake node',
+   note=TRUST + '; block_added handling atomic (update_height is C20); bounds: 2 HTLCs / 1 block arrival (quick).'),
+ 'C07': dict(category='model_checking',
+   text='Full stack from MIR: every resolution event hands the same response to every registered listener and leaves none behind; with symbolic fields, any HTLC that is rejecting (fee on declared total, '
+        'relative expiry) on a still-incomplete set never leads to pay; two parts with conflicting trampoline info (different invoice string for one hash; same amountless invoice with different amount TLVs) '
+        'never lead to pay. Stored state free / pending / succeeded. All schedules incl. every select! start index.',
+   design='4/C07', technique='symbolic execution of the real async stack from MIR under an explicit-state scheduler with partial-order reduction; SMT decides data; native replay over a fake node',
+   note=TRUST + '; bounds: 2 HTLCs (quick) / 3 (thorough), 1 part.'),
 }
 
 NOT_YET = 'harness not built yet in this session (see DESIGN.md build order); will be claimed once its check exists'
